@@ -329,3 +329,20 @@ Qed.
 (* ... and a support segment shorter than the window contributes nothing, whatever align_last *)
 Theorem call_short_segment eps w s align_last : duration eps s < w_dur w -> call_one eps w s align_last = [].
 Proof. intro H. unfold call_one. apply Z.ltb_lt in H. now rewrite H. Qed.
+
+(* crop never reads the window's own end: two windows with the same duration, step and start crop alike, for Segment and
+   Timeline focuses, both output forms, every mode, with and without `fixed` *)
+Theorem crop_ignores_own_end d s st0 e1 e2 :
+  let w1 := mkWin d s st0 e1 in
+  let w2 := mkWin d s st0 e2 in
+  (forall f m fx, crop_range w1 f m fx = crop_range w2 f m fx) /\
+  (forall eps foc m, crop_ranges_tl eps w1 foc m = crop_ranges_tl eps w2 foc m) /\
+  (forall eps foc m, crop_indices_tl eps w1 foc m = crop_indices_tl eps w2 foc m) /\
+  (forall dd m, samples w1 dd m = samples w2 dd m).
+Proof.
+  cbv zeta. assert (R : forall f m fx, crop_range (mkWin d s st0 e1) f m fx = crop_range (mkWin d s st0 e2) f m fx) by reflexivity.
+  split; [exact R|]. split; [|split].
+  - intros eps foc m. unfold crop_ranges_tl. f_equal.
+  - intros eps foc m. unfold crop_indices_tl. f_equal.
+  - reflexivity.
+Qed.
